@@ -12,6 +12,8 @@ A declaration step that raises under a schedule while the canonical order builds
 import copy
 import random
 
+import numpy as np
+
 from sim import gen, ref, interp, direct
 from sim.runner import subseed, digest
 
@@ -151,7 +153,29 @@ def gen_ro_sep(rng, cfg):
     else:
         s_obj = add({'op': 'obj', 'm': 'm', 'how': 'max', 'e': obj}, set(s_x), role='obj')
 
-    for k in range(K):
+    # joint rows: the K rows form ONE vector-valued robust constraint x + A z <= b with one set for all rows
+    joint = (not scalar_x) and rng.random() < cfg.get('p_joint_rows', 0.25)
+    if joint:
+        own = default_set is None or rng.random() < 0.7
+        blocks = gen.gen_set(rng, zs, fams) if own else default_set
+        rows = [_coef(rng, zs) for _ in range(K)]
+        bvec = [gen.r2(rng, 5, 20) for _ in range(K)]
+        for k in range(K):
+            expect['x'].append(bvec[k] - ref.support(blocks, rows[k]))
+        e_ = ['v', 'x']
+        for zn in zs:
+            t_ = ['@', ['c', [rows[k][zn] for k in range(K)]], ['v', zn]]
+            e_ = ['+', e_, t_] if rng.random() < 0.5 else ['+', t_, e_]
+        ce = ['<=', e_, ['c', bvec]] if rng.random() < 0.7 else ['>=', ['c', bvec], e_]
+        s_c = add({'op': 'cons', 'id': 'c0', 'e': ce}, {s_x[0]} | set(s_z.values()), role='cons')
+        last = s_c
+        if own:
+            kw = {} if default_set is not None else {'anchor': s_c}
+            last = add({'op': 'forall', 'id': 'c0', 'set': ref.set_constraints(blocks, zs),
+                        'blocks': blocks}, [s_c] + list(s_z.values()), role='set', **kw)
+        add({'op': 'st', 'm': 'm', 'ids': ['c0']},
+            ([s_c] if (own and rng.random() < 0.4) else [last]) if own else [last, s_obj], role='st')
+    for k in range(0 if joint else K):
         a = _coef(rng, zs)
         cdeps = {s_x[k]} | set(s_z.values())
         if 'w' in zs and rng.random() < 0.4:
@@ -259,6 +283,23 @@ def gen_dro_sep(rng, cfg):
         sx = add({'op': 'dvar', 'id': 'x', 'm': 'm', 'shape': [K]}, [s_m])
         xs = [['i', ['v', 'x'], k] for k in range(K)]
         s_x = [sx] * K
+    # event-wise decisions: x_k takes one value per declared event (only with scalar decisions, robust rows)
+    ew_mode = scalar_x and S >= 2 and rng.random() < cfg.get('p_eventwise', 0.3)
+    ew_part = {}
+    s_adapt = {}
+    if ew_mode:
+        from machines.part import RefPartition, gen_partition_calls
+        for k in range(K):
+            if rng.random() < 0.7:
+                rp = RefPartition(S)
+                prev = None
+                for positions in gen_partition_calls(rng, S):
+                    rp.adapt(positions)
+                    labs = [labels[q] for q in positions]
+                    prev = add({'op': 'adapt', 'tgt': ['v', 'x%d' % k], 'to': {'scen': labs if len(labs) > 1 or rng.random() < 0.5 else labs[0]}},
+                               [s_x[k]] + ([prev] if prev else []), role='adapt')
+                    s_adapt.setdefault(k, []).append(prev)
+                ew_part[k] = rp.event_of()
     # extra variable outside the objective.  In dro a decision declared after an expression was built breaks
     # formulation (recorded finding K6), so it precedes every expression except in a rare hazard draw.
     ints = False
@@ -357,9 +398,10 @@ def gen_dro_sep(rng, cfg):
         return max(ref.support(ambs[an]['supports'][s_], a) for s_ in range(S))
 
     s_bound = []
+    all_adapt_early = [sid_ for lst in s_adapt.values() for sid_ in lst]
     if scalar_x:
         for k in range(K):
-            add({'op': 'cons', 'id': 'bx%d' % k, 'e': ['<=', xs[k], ['c', 50.0]]}, list(set(s_x)) + before_expr, role='bound')
+            add({'op': 'cons', 'id': 'bx%d' % k, 'e': ['<=', xs[k], ['c', 50.0]]}, list(set(s_x)) + before_expr + all_adapt_early, role='bound')
             s_bound.append(add({'op': 'st', 'm': 'm', 'ids': ['bx%d' % k]}, [steps[-1]['sid']] + s_amb, role='bound', anchor=s_x[k]))
     else:
         add({'op': 'cons', 'id': 'bx', 'e': ['<=', ['v', 'x'], ['c', 50.0]]}, [s_x[0]] + before_expr, role='bound')
@@ -371,6 +413,8 @@ def gen_dro_sep(rng, cfg):
     for t in xs[1:]:
         obj = ['+', obj, t]
     default_amb = None
+    all_adapt = [sid_ for lst in s_adapt.values() for sid_ in lst]
+    obj_info = {'how': 'max', 'c0': None}
     if rng.random() < 0.6:
         default_amb = rng.choice(sorted(ambs))
         if rng.random() < 0.6:
@@ -380,24 +424,56 @@ def gen_dro_sep(rng, cfg):
                 e = ['+', e, ['@', ['c', a], ['v', zn]]]
             expect['obj_const'] += -wce(default_amb, {zn: [-v for v in a] for zn, a in c0.items()})
             obj_e = ['E', e]
+            obj_info = {'how': 'E', 'c0': c0}
         else:
-            obj_e = ['E', obj] if rng.random() < 0.5 else obj
+            obj_e = ['E', obj] if (rng.random() < 0.5 or ew_part) else obj
+            obj_info = {'how': 'E' if obj_e[0] == 'E' else 'max', 'c0': None}
         s_obj = add({'op': 'obj', 'm': 'm', 'how': 'maxinf', 'e': obj_e, 'amb': default_amb},
-                    set(s_x) | set(s_z.values()) | {s_amb['FG'.index(default_amb)]} | set(before_expr), role='obj')
+                    set(s_x) | set(s_z.values()) | {s_amb['FG'.index(default_amb)]} | set(before_expr) | set(all_adapt), role='obj')
     else:
-        s_obj = add({'op': 'obj', 'm': 'm', 'how': 'max', 'e': obj}, set(s_x) | set(before_expr), role='obj')
+        s_obj = add({'op': 'obj', 'm': 'm', 'how': 'max', 'e': obj}, set(s_x) | set(before_expr) | set(all_adapt), role='obj')
 
-    for k in range(K):
+    # joint rows: all K rows in ONE vector-valued constraint (x + A z <= b, with or without E), one set for all of them;
+    # row k still pins x[k] to b_k minus the worst case of its own a_k
+    joint = (not scalar_x) and rng.random() < cfg.get('p_joint_rows', 0.3)
+    if joint:
+        etype = rng.random() < 0.6
+        own = default_amb is None or rng.random() < 0.7
+        an = rng.choice(sorted(ambs)) if own else default_amb
+        rows = [_coef(rng, zs) for _ in range(K)]
+        bvec = [gen.r2(rng, 5, 20) for _ in range(K)]
+        for k in range(K):
+            expect['x'].append(bvec[k] - (wce(an, rows[k]) if etype else wcs(an, rows[k])))
+        e_ = ['v', 'x']
+        for zn in zs:
+            t_ = ['@', ['c', [rows[k][zn] for k in range(K)]], ['v', zn]]
+            e_ = ['+', e_, t_] if rng.random() < 0.5 else ['+', t_, e_]
+        if etype:
+            e_ = ['E', e_]
+        ce = ['<=', e_, ['c', bvec]] if rng.random() < 0.7 else ['>=', ['c', bvec], e_]
+        cdeps = set(s_x) | set(s_z.values()) | set(before_expr)
+        s_c = add({'op': 'cons', 'id': 'c0', 'e': ce}, cdeps, role='cons')
+        last = s_c
+        if own:
+            kw = {} if default_amb is not None else {'anchor': s_c}
+            last = add({'op': 'forall', 'id': 'c0', 'amb': an}, [s_c, s_amb['FG'.index(an)]], role='set', **kw)
+        add({'op': 'st', 'm': 'm', 'ids': ['c0']},
+            [s_c if (own and rng.random() < 0.4) else last] + s_amb + ([] if own else [s_obj]), role='st')
+    for k in range(0 if joint else K):
         a = _coef(rng, zs)
         b = gen.r2(rng, 5, 20)
-        etype = rng.random() < 0.45
+        etype = rng.random() < 0.45 and k not in ew_part
         own = default_amb is None or rng.random() < 0.7
         an = rng.choice(sorted(ambs)) if own else default_amb
         expect['x'].append(b - (wce(an, a) if etype else wcs(an, a)))
+        if k in ew_part:
+            # one value per declared event: the row must hold in every scenario of the event
+            xs_k = [b - max(ref.support(ambs[an]['supports'][q], a) for q in ew_part[k][s_]) for s_ in range(S)]
+            expect.setdefault('xs', {})[k] = xs_k
         ce = _lin_forms(rng, xs[k], a, b)
         if etype:
             ce = [ce[0], ['E', ce[1]], ce[2]] if ce[0] == '<=' else [ce[0], ce[1], ['E', ce[2]]]
-        cdeps = {s_x[k]} | set(s_x) | set(s_z.values()) | set(before_expr)
+        cdeps = {s_x[k]} | set(s_x) | set(s_z.values()) | set(before_expr) | set(all_adapt)
         pw = False
         if etype and not ambs[an]['moments'] and rng.random() < 0.3:
             # E(maxof(x + a1.z, x + a2.z)) <= b: sup of a max is the max of sups per scenario, then the worst case over p
@@ -429,6 +505,20 @@ def gen_dro_sep(rng, cfg):
         st_after_cons_only = own and not pw and rng.random() < 0.4
         add({'op': 'st', 'm': 'm', 'ids': ['c%d' % k]},
             [s_c if st_after_cons_only else last] + s_amb + ([] if own else [s_obj]), role='st')
+    if ew_part:
+        vs = [sum((expect['xs'][k][s_] if k in ew_part else expect['x'][k]) for k in range(K)) for s_ in range(S)]
+        if obj_info['how'] == 'max':
+            expect['obj'] = min(vs)                      # a robust objective holds in every scenario
+        else:
+            c0 = obj_info['c0']
+            A = ambs[default_amb]
+            if A['moments']:
+                a_ = [-v for v in c0['z']] if c0 else [0.0] * zs['z']
+                expect['obj'] = -ref.worst_case_expectation_moments(A['P'], A['boxes'], a_, A['moments'], vconst=[-v for v in vs])
+            else:
+                neg = {zn: [-v for v in a] for zn, a in c0.items()} if c0 else None
+                deltas = [(ref.support(A['supports'][s_], neg) if neg else 0.0) - vs[s_] for s_ in range(S)]
+                expect['obj'] = -ref.worst_case_expectation(A['P'], deltas)
     if s_u:
         add({'op': 'cons', 'id': 'bu1', 'e': ['<=', ['v', 'u'], ['c', 5.0]]}, [s_u], late=True, role='bound')
         add({'op': 'cons', 'id': 'bu2', 'e': ['>=', ['v', 'u'], ['c', 0.0]]}, [s_u], late=True, role='bound')
@@ -995,14 +1085,16 @@ def check_case(case, props):
     if fam.endswith('-sep'):
         stats['l1_checks'] += 1
         exp_x = decl['expect']['x']
-        exp_obj = sum(exp_x) + decl['expect']['obj_const']
+        exp_obj = decl['expect']['obj'] if 'obj' in decl['expect'] else sum(exp_x) + decl['expect']['obj_const']
         if not close(out0['obj'], exp_obj, tol) and engine_at_fault(it0, decl['model'], case['canon_solver'], tol):
             inconc('engine_defect:' + case['canon_solver'])
             return {'violations': viols, 'stats': stats}
         if not close(out0['obj'], exp_obj, tol):
             viol('L1-objective', 'canonical build: optimum %.9g, closed form of the attached sets %.9g'
                  % (out0['obj'], exp_obj), canon_ops(decl))
-        else:
+        elif not decl['expect'].get('xs'):
+            # (with event-wise decisions only the objective is pinned down: a scenario that does not attain the worst case,
+            #  or gets probability zero in the worst-case distribution, may carry any smaller value)
             got = _read_x(it0, decl)
             for k, (g, e) in enumerate(zip(got, exp_x)):
                 if not close(g, e, tol * 5):
@@ -1102,12 +1194,13 @@ def check_case(case, props):
                         if op.get('final'):
                             stats['l2_checks'] += 1
                             if not close(out['obj'], out0['obj'], max(tol, TOL['lp'])) and \
-                                    engine_at_fault(it, decl['model'], eng, tol):
-                                inconc('engine_defect:' + eng)
+                                    (engine_at_fault(it, decl['model'], eng, tol) or
+                                     engine_at_fault(it0, decl['model'], case['canon_solver'], tol)):
+                                inconc('engine_defect:' + eng + '/' + case['canon_solver'])
                             elif not close(out['obj'], out0['obj'], max(tol, TOL['lp'])):
                                 viol('L2-objective', 'schedule #%d (%s) ends in %.9g, canonical build %.9g'
                                      % (si, sch['bias'], out['obj'], out0['obj']), executed, sched=si)
-                            elif fam.endswith('-sep'):
+                            elif fam.endswith('-sep') and not decl['expect'].get('xs'):
                                 got = _read_x(it, decl)
                                 for kk, (g, e) in enumerate(zip(got, decl['expect']['x'])):
                                     if not close(g, e, tol * 5):
@@ -1150,13 +1243,38 @@ def _soft(a, b):
 
 
 def _read_x(it, decl):
+    """values of the probe decisions; for an event-wise decision the value in the scenario where the closed form expects
+    the largest deviation is not known here, so the per-scenario values are compared entry by entry instead (xs)"""
+    import pandas as pd
     vals = []
+    xs_exp = decl['expect'].get('xs', {}) if decl.get('expect') else {}
+    k = 0
     for n in decl['xnames']:
-        v = it.env[n].get()
+        v = it.env[n]()
+        if isinstance(v, pd.Series):
+            rows = [float(np.asarray(r).reshape(-1)[0]) for r in v.values]
+            exp_rows = xs_exp.get(k) or xs_exp.get(str(k))
+            if exp_rows is not None:
+                # report the first scenario whose value deviates (or scenario 0), shifted onto the scalar reference
+                dev = [abs(g - e) for g, e in zip(rows, exp_rows)]
+                j = max(range(len(dev)), key=lambda i_: dev[i_])
+                vals.append(decl['expect']['x'][k] + (rows[j] - exp_rows[j]))
+            else:
+                vals.append(rows[0])
+            k += 1
+            continue
         try:
-            vals.extend([float(x) for x in v.reshape(-1)])
-        except AttributeError:
-            vals.append(float(v))
+            arr = [float(x) for x in np.asarray(v, float).reshape(-1)]
+        except TypeError:
+            arr = [float(v)]
+        if len(arr) == 1 and (xs_exp.get(k) or xs_exp.get(str(k))):
+            exp_rows = xs_exp.get(k) or xs_exp.get(str(k))
+            # declared event-wise but a single value came back: compare with the scenario-0 closed form
+            vals.append(decl['expect']['x'][k] + (arr[0] - exp_rows[0]))
+            k += 1
+            continue
+        vals.extend(arr)
+        k += len(arr)
     return vals
 
 
